@@ -53,7 +53,10 @@
 namespace clangimport_verif { void parseClangAstDump(Tokenizer &tokenizer, std::istream &f); }
 #define clangimport clangimport_verif
 #define private public
-#include "clangimport.cpp"
+#ifndef C35_SOURCE
+#define C35_SOURCE "clangimport.cpp"      // found through -I<repo>/lib: the working tree's file
+#endif
+#include C35_SOURCE
 #undef private
 #undef clangimport
 
@@ -208,7 +211,11 @@ static void import(Imported& im, const std::string& lang, const std::string& fil
     im.tokenizer.reset(new Tokenizer(std::move(tokenlist), im.logger));
     std::istringstream ast(text);
     try {
+#ifdef C35_USE_COPY
+        clangimport_verif::parseClangAstDump(*im.tokenizer, ast);   // docs/C35.md "mutations": a scratch copy of the source
+#else
         clangimport::parseClangAstDump(*im.tokenizer, ast);
+#endif
         im.outcome = "ok";
     } catch (const InternalError& e) {
         im.outcome = "throw " + errClass(e.errorMessage);
